@@ -416,7 +416,7 @@ def run(ctx):
     return C.finish(ctx, "proof", cov, [
         "Go int is 64 bits",
         "fmt.Sprintf and strconv.Atoi behave as the Gallina re-implementations on the subset used (checked by the correspondence, not proved)",
-        "the live part of PHONE_MIGRATE (Reconnect succeeds, request repeated) is outside this model"])
+        "the live part of PHONE_MIGRATE: one caller is modelled sequentially (C17_live_migrate), several callers by the protocol model Misc/Migrate.v (C17_concurrent_migrate_*; Reconnect assumed to succeed, termination under targets_serve); the model is a hand transcription of makeRequest / tryToProcessErrOf / repeatPendingRequests, tied to the code by membership of every observed multi-caller outcome in the set the extracted model allows"])
 
 
 def replay(ctx, path):
